@@ -56,7 +56,7 @@ func cat(ls ...[]string) []string {
 var modelledBy = map[string][]string{
 	"C01": cat(replyPath, servicePath, []string{"call:Call.IsOneway", "call:Call.WantsMore", "call:Call.WantsUpgrade"}),
 	"C02": cat(replyPath, readerPath, []string{"connection:Connection.Send"}),
-	"C03": cat(clientPath, replyPath, []string{"call:Call.GetParameters", "bridge:type PipeCon", "bridge:PipeCon.Read", "bridge:PipeCon.Write", "newbridge:NewBridgeWithStderr", "bridge:NewBridge", "bridge:PipeCon.Close", "bridge:PipeCon.LocalAddr", "bridge:PipeCon.RemoteAddr", "bridge:PipeCon.SetDeadline", "bridge:var _", "connection:type Connection", "connection:Connection.Close"}),
+	"C03": cat(clientPath, replyPath, []string{"call:Call.GetParameters", "bridge:type PipeCon", "bridge:PipeCon.Read", "bridge:PipeCon.Write", "newbridge:NewBridgeWithStderr", "bridge:NewBridge", "bridge:PipeCon.Close", "bridge:PipeCon.LocalAddr", "bridge:PipeCon.RemoteAddr", "bridge:PipeCon.SetDeadline", "bridge:PipeCon.SetReadDeadline", "bridge:PipeCon.SetWriteDeadline", "bridge:var _", "connection:type Connection", "connection:Connection.Close", "connection:NewConnection", "conn:Conn.Read", "conn:Conn.ReadBytes", "conn:Conn.Write", "conn:NewConn", "conn:type Conn"}),
 	"C04": cat(servicePath, []string{"service:type Service", "service:type dispatcher"}),
 	"C05": idlAll, "C06": idlAll, "C09": idlAll,
 	"C07": cat(genAll, []string{"gen:generateFile", "gen:main"}),
